@@ -203,17 +203,34 @@ class Ser:
         a, negatable = self.atom(field, value)
         return ["atom", kind, None if field is None else self.field_id(field), negatable, a]
 
-    def tree(self, c):
+    @staticmethod
+    def chain_not(c):
+        """the decision TextQueryBackend.convert_condition_field_eq_val takes: is a NOT among the parents,
+        following the parent links as they are (they pass through the detection objects of the rule)"""
+        p = getattr(c, "parent", None)
+        while p is not None:
+            if isinstance(p, ConditionNOT):
+                return True
+            p = getattr(p, "parent", None)
+        return False
+
+    def tree(self, c, sn=False):
         if isinstance(c, ConditionAND):
-            return ["and", [self.tree(a) for a in c.args]]
+            return ["and", [self.tree(a, sn) for a in c.args]]
         if isinstance(c, ConditionOR):
-            return ["or", [self.tree(a) for a in c.args]]
+            return ["or", [self.tree(a, sn) for a in c.args]]
         if isinstance(c, ConditionNOT):
-            return ["not", self.tree(c.args[0])]
-        if isinstance(c, ConditionFieldEqualsValueExpression):
-            return self.leaf(c.field, c.value)
-        if isinstance(c, ConditionValueExpression):
-            return self.leaf(None, c.value)
+            return ["not", self.tree(c.args[0], True)]
+        if isinstance(c, (ConditionFieldEqualsValueExpression, ConditionValueExpression)):
+            t = self.leaf(c.field if isinstance(c, ConditionFieldEqualsValueExpression) else None, c.value)
+            pn = self.chain_not(c)
+            if self.b.convert_not_as_not_eq and pn != sn and t[0] in ("atom", "orfresh", "exp"):
+                # the parent links say something else than the position in the tree (a detection referenced
+                # several times: its objects are shared, the last reference wins): record the decision taken
+                t = ["forced", pn, t]
+            return t
+        if False:
+            pass
         if c is None:
             return ["none"]
         return ["unknown", type(c).__name__]
